@@ -593,6 +593,11 @@ func (w *World) execHeld(op Op) {
 		}
 	}
 	w.HeldWorkers += w.mq.Held()
+	// (the worker is let go after a second at the latest, also when this
+	// goroutine is starved: the gateway's shutdown waits are wall-clock bounds)
+	t0 := time.Now()
+	guard := time.AfterFunc(time.Second, w.mq.Release)
+	defer guard.Stop()
 	done := make(chan struct{})
 	go func() {
 		defer close(done)
@@ -608,6 +613,9 @@ func (w *World) execHeld(op Op) {
 	// the answer's callback reaches the connection's queue
 	time.Sleep(15 * time.Millisecond)
 	w.mq.Release()
+	if d := time.Since(t0); d > time.Second && w.Failed == "" {
+		w.Failed = "worker-held group overran its time: " + d.String()
+	}
 	<-done
 }
 
